@@ -70,6 +70,10 @@ def to_smt(node, fnames=()):
             return f"(ite (< {args[0]} 0.0) (- {args[0]}) {args[0]})"
         if f == "ite":
             return f"(ite {args[0]} {args[1]} {args[2]})"
+        if f == "min":
+            return f"(ite (<= {args[0]} {args[1]}) {args[0]} {args[1]})"
+        if f == "max":
+            return f"(ite (>= {args[0]} {args[1]}) {args[0]} {args[1]})"
         return f"({f} " + " ".join(args) + ")"
     if isinstance(node, ast.IfExp):
         return f"(ite {t(node.test)} {t(node.body)} {t(node.orelse)})"
@@ -122,6 +126,8 @@ def to_verus(node):
             return f"rabs({args[0]})"
         if f == "ite":
             return f"(if {args[0]} {{ {args[1]} }} else {{ {args[2]} }})"
+        if f in ("min", "max"):
+            return f"r{f}({args[0]}, {args[1]})"
         return f"{f}(" + ", ".join(args) + ")"
     if isinstance(node, ast.IfExp):
         return f"(if {t(node.test)} {{ {t(node.body)} }} else {{ {t(node.orelse)} }})"
